@@ -4,7 +4,7 @@ import gen_http as G
 
 HARNESS = "rx_driver"
 LEAN_MODULES = ["ViaProofs.C08"]
-LEMMA_MODULES = ['ViaProofs.Trans.RL', 'ViaProofs.Trans.SL', 'ViaProofs.Trans.FL', 'ViaProofs.Trans.CH', 'ViaProofs.Trans.MH']
+LEMMA_MODULES = ['ViaProofs.Trans.RL', 'ViaProofs.Trans.SL', 'ViaProofs.Trans.FL', 'ViaProofs.Trans.CH', 'ViaProofs.Trans.MH', 'ViaProofs.Trans.CK']
 REQUIRED_THEOREMS = ['Via.hex_roundtrip', 'Via.dec_roundtrip', 'Via.std_names_parse', 'Via.own_headers_parse', 'Via.chunk_header_roundtrip']
 LEVEL = "proof"
 RULE = ("requests / responses / chunks / last-chunks built through tx_request, tx_response, chunk_header and last_chunk from valid "
@@ -12,7 +12,7 @@ RULE = ("requests / responses / chunks / last-chunks built through tx_request, t
         "and arbitrary token names, values without line breaks, bodies, chunk sizes incl. hex-width edges, extensions, trailers) "
         "and fed to a receiver whose limits admit them; the expected start line, header map, framing and payload follow from "
         "the components; hex/dec number round trips; distinct = distinct component tuple; all are non-trivial")
-TRUSTED_BASE = ["tools/cxx2lean.py (translator of the parse_char / parse state machines and of message_headers::parse: RL, SL, FL, CH from the current C++ into Lean; the model is proved equal to the translation in ViaProofs/Trans)", "Lean 4.33 kernel", "axioms: propext, Classical.choice, Quot.sound at most",
+TRUSTED_BASE = ["tools/cxx2lean.py (translator of the parse_char / parse state machines and of message_headers::parse and rx_chunk::parse: RL, SL, FL, CH from the current C++ into Lean; the model is proved equal to the translation in ViaProofs/Trans)", "Lean 4.33 kernel", "axioms: propext, Classical.choice, Quot.sound at most",
                 "tools/extract.py (header name tables, reason phrases, method names re-extracted every run)",
                 "rx_driver + via_model driver"]
 ASSUMPTIONS = ["valid components: method upper-case within the limit, target without blanks/line ends, token header names, values "
